@@ -193,19 +193,22 @@ def customExcept (keys : List Nat) : List Queued → Option WAct × Bool
       if keys.contains q.ev.coord.2 then (some .tap, false) else (none, false)
     else customExcept keys rest
 
+/-- the variant-specific part of `handle_hold_tap`: an early decision, and whether the timeout is
+to be skipped -/
+def earlyTrigger (cfg : HTConfig) (queued : List Queued) : Option WAct × Bool :=
+  match cfg with
+  | .default => (none, false)
+  | .holdOnOtherKeyPress => (if queued.any (·.ev.isPress) then some .hold else none, false)
+  | .permissiveHold => (if permissiveHoldHit queued then some .hold else none, false)
+  | .customRelease keys => (customRelease keys queued, false)
+  | .customExcept keys => customExcept keys queued
+
 /-- `WaitingState::handle_hold_tap` -/
 def handleHoldTap (w : Waiting) (cfg : HTConfig) (queued : List Queued) : Waiting × Option WAct :=
   if queued.length % 256 == w.prevQueueLen && w.timeout > 0 then (w, none)
   else
     let w := { w with prevQueueLen := queued.length % 256 }
-    let early : Option WAct × Bool :=
-      match cfg with
-      | .default => (none, false)
-      | .holdOnOtherKeyPress => (if queued.any (·.ev.isPress) then some .hold else none, false)
-      | .permissiveHold => (if permissiveHoldHit queued then some .hold else none, false)
-      | .customRelease keys => (customRelease keys queued, false)
-      | .customExcept keys => customExcept keys queued
-    match early with
+    match earlyTrigger cfg queued with
     | (some a, _) => (w, some a)
     | (none, skipTimeout) =>
       match queued.find? (fun s => isCorrespondingRelease w s.ev) with
@@ -613,9 +616,11 @@ def releaseStates (clearFlagged : Bool) (c : Coord) : List St → CustomEv → L
 
 /-- the waiting state at index `idx` (−1 = `waiting`, ≥ 0 = `extra_waiting[idx]`) and the layout
 with it removed; `Int`-free: `none` stands for −1 -/
+def Layout.clearWaiting (s : Layout) : Layout := { s with waiting := none }
+
 def takeWaiting (s : Layout) (idx : Option Nat) : Option (Waiting × Layout) :=
   match idx with
-  | none => s.waiting.map fun w => (w, { s with waiting := none })
+  | none => s.waiting.map fun w => (w, s.clearWaiting)
   | some i => (s.extraWaiting[i]?).map fun w => (w, { s with extraWaiting := s.extraWaiting.eraseIdx i })
 
 def waitingDelay (w : Waiting) : Nat :=
@@ -726,6 +731,20 @@ def forkHit (s : Layout) (triggers : List KeyCode) : Bool :=
   s.states.any fun st => match st with
     | .normalKey kc _ _ | .fakeKey kc => triggers.contains kc
     | _ => false
+
+/-- bookkeeping of `waiting_into_hold` before the hold action runs: the quick-tap tracker is reset
+if this is the last pressed key, and input processing pauses for the rapid-event delay -/
+def holdPrep (s : Layout) (w : Waiting) : Layout :=
+  let s := if w.coord == s.lptCoord then { s with lptTapHoldTimeout := 0 } else s
+  { s with oneshot := { s.oneshot with pauseInputProcessingTicks := s.oneshot.pauseInputProcessingDelay } }
+
+/-- bookkeeping of `waiting_into_timeout` before the timeout action runs -/
+def timeoutPrep (s : Layout) (w : Waiting) : Layout :=
+  if w.coord == s.lptCoord then { s with lptTapHoldTimeout := 0 } else s
+
+/-- after the tap action(s): input processing pauses for the rapid-event delay -/
+def tapPost (s : Layout) : Layout :=
+  { s with oneshot := { s.oneshot with pauseInputProcessingTicks := s.oneshot.pauseInputProcessingDelay } }
 
 mutual
   /-- `Layout::do_action` -/
@@ -844,10 +863,7 @@ mutual
     | fuel + 1, s, idx =>
       match takeWaiting s idx with
       | none => .ok (s, .noEvent)
-      | some (w, s) =>
-        let s := if w.coord == s.lptCoord then { s with lptTapHoldTimeout := 0 } else s
-        let s := { s with oneshot := { s.oneshot with pauseInputProcessingTicks := s.oneshot.pauseInputProcessingDelay } }
-        doAction fuel s w.hold w.coord (waitingDelay w) false w.layerStack
+      | some (w, s) => doAction fuel (holdPrep s w) w.hold w.coord (waitingDelay w) false w.layerStack
 
   /-- the `for i in -1..EXTRA_WAITING_LEN` loop of `event` on queue overflow -/
   def flushWaitings : Nat → Layout → List (Option Nat) → Except Crash Layout
@@ -909,38 +925,54 @@ driver needs to stay fast; exhausting it stands for the stack overflow of unboun
 def FUEL : Nat := 4000
 theorem FUEL_succ : FUEL = 3999 + 1 := rfl
 
+def simpleAction (a : Action) : Bool :=
+  match a with
+  | .keyCode _ | .multipleKeyCodes _ | .oneShot .. | .layer _ => true
+  | _ => false
+
+/-- `for other_coord in pq { self.do_action(ac, other_coord, ..) }` -/
+def repeatForCoords (ac : Action) (delay : Nat) (ls : List Nat) : List Coord → Layout → Except Crash Layout
+  | [], s => .ok s
+  | c :: rest, s =>
+    match doAction FUEL s ac c delay false ls with
+    | .error e => .error e
+    | .ok (s, _) => repeatForCoords ac delay ls rest s
+
+/-- the chord-participants part of `waiting_into_tap` for a `MultipleActions` tap action -/
+def repeatSimpleActions (acs : List Action) (pq : List Coord) (delay : Nat) (ls : List Nat) : List Action → Layout → Except Crash Layout
+  | [], s => .ok s
+  | ac :: rest, s =>
+    if simpleAction ac then
+      match repeatForCoords ac delay ls pq s with
+      | .error e => .error e
+      | .ok s => repeatSimpleActions acs pq delay ls rest s
+    else repeatSimpleActions acs pq delay ls rest s
+
 /-- `Layout::waiting_into_tap` -/
 def waitingIntoTap (s : Layout) (pq : Option (List Coord)) (idx : Option Nat) : Except Crash (Layout × CustomEv) :=
   match takeWaiting s idx with
   | none => .ok (s, .noEvent)
-  | some (w, s) => do
-    let delay := waitingDelay w
-    let (s, ret) ← doAction FUEL s w.tap w.coord delay false w.layerStack
-    let simple (a : Action) : Bool := match a with
-      | .keyCode _ | .multipleKeyCodes _ | .oneShot .. | .layer _ => true
-      | _ => false
-    let s ← match pq with
-      | none => pure s
+  | some (w, s) =>
+    match doAction FUEL s w.tap w.coord (waitingDelay w) false w.layerStack with
+    | .error e => .error e
+    | .ok (s, ret) =>
+      match pq with
+      | none => .ok (tapPost s, ret)
       | some pq =>
-        if simple w.tap then
-          pq.foldlM (fun s c => do let r ← doAction FUEL s w.tap c delay false w.layerStack; pure r.1) s
-        else match w.tap with
-          | .multipleActions acs =>
-            acs.foldlM (fun s ac =>
-              if simple ac then
-                pq.foldlM (fun s c => do let r ← doAction FUEL s ac c delay false w.layerStack; pure r.1) s
-              else pure s) s
-          | _ => pure s
-    let s := { s with oneshot := { s.oneshot with pauseInputProcessingTicks := s.oneshot.pauseInputProcessingDelay } }
-    pure (s, ret)
+        let r :=
+          if simpleAction w.tap then repeatForCoords w.tap (waitingDelay w) w.layerStack pq s
+          else match w.tap with
+            | .multipleActions acs => repeatSimpleActions acs pq (waitingDelay w) w.layerStack acs s
+            | _ => .ok s
+        match r with
+        | .error e => .error e
+        | .ok s => .ok (tapPost s, ret)
 
 /-- `Layout::waiting_into_timeout` -/
 def waitingIntoTimeout (s : Layout) (idx : Option Nat) : Except Crash (Layout × CustomEv) :=
   match takeWaiting s idx with
   | none => .ok (s, .noEvent)
-  | some (w, s) =>
-    let s := if w.coord == s.lptCoord then { s with lptTapHoldTimeout := 0 } else s
-    doAction FUEL s w.timeoutAction w.coord (waitingDelay w) false w.layerStack
+  | some (w, s) => doAction FUEL (timeoutPrep s w) w.timeoutAction w.coord (waitingDelay w) false w.layerStack
 
 def applyWaitingAction (s : Layout) (r : Option (WAct × Option (List Coord))) (idx : Option Nat)
     (dflt : CustomEv) : Except Crash (Layout × CustomEv) :=
